@@ -194,6 +194,15 @@ def fragile(case, ir, mr):
         return True                          # f/minsd overflows in floats (not modelled)
     if case["op"] == "bet" and fragile_bet(case):
         return True
+    if case["init"].get("estim") == "shrink_trunc" and F(kw_.get("f") or 0) > 0 and case["x"] and not exact_inputs(case):
+        # the running sd enters through f/sd: for almost constant data (values differing by less than 1e-6 relative)
+        # the float running variance has few correct digits, and with it the estimate
+        vals_ = [F(v) for v in case["x"]]
+        for j in range(2, len(vals_) + 1):
+            head = vals_[:j]
+            lo, hi = min(head), max(head)
+            if lo != hi and (hi - lo) < F(1, 10 ** 6) * max(abs(hi), F(1)):
+                return True
     if case["op"] == "test" and fragile_cancel(case, mr):
         return True
     init = case["init"]
@@ -258,7 +267,16 @@ def fragile_bet(case):
     if init.get("bet") != "agrapa" or init["N"] is None or not case["x"]:
         return False
     exact = exact_inputs(case)
-    for m in null_means(init["N"], F(init["t"]), [F(v) for v in case["x"]][:init["N"]]):
+    xs_ = [F(v) for v in case["x"]][:init["N"]]
+    if not exact:
+        # the raw bet (mean_j - t_adj)/(var_j + (t_adj - mean_j)^2) is 0/0 in exact arithmetic when the draws so far are
+        # all equal to the adjusted null mean; in floats the rounding of t_adj decides between 0 and the cap c/t_adj
+        mus_ = null_means(init["N"], F(init["t"]), xs_)
+        for j in range(1, len(xs_)):
+            head = xs_[:j]
+            if len(set(head)) == 1 and head[0] == mus_[j]:
+                return True
+    for m in null_means(init["N"], F(init["t"]), xs_):
         if (m != 0 and abs(m) < F(1, 10 ** 9)) or (m == 0 and not exact):
             return True
     return False
@@ -1093,9 +1111,17 @@ def oracle_c12(case, ir):
         return None
     if test == "kaplan_kolmogorov":
         mu = null_means(N, t + g, [v + g for v in x])
+        Sg = F(0)
         for j, (xj, m) in enumerate(zip(x, mu)):
             if m <= F(1, 10 ** 9):
                 return None
+            # the conditional null mean is a difference N(t+g) - S_j: when it is more than six orders of magnitude
+            # smaller than its terms the float value carries a relative error above the tolerance used below
+            # (catastrophic cancellation, not a property of the method): undecidable in floats from here on
+            if N is not None and abs(N * (t + g) - Sg) < F(1, 10 ** 6) * max(abs(N * (t + g)), abs(Sg), F(1)) \
+                    and not exact_inputs(case):
+                return None
+            Sg += xj + g
             T *= (xj + g) / m
             if T == 0:
                 want = 1.0
